@@ -284,4 +284,6 @@ pub fn generate(s: &mut Session, tier: &str, rng: &mut Rng) {
         }
         tj_both(s, &mut cr, rng);
     }
+    // the nonce sequences of the specifications, far beyond the lengths the stream cases reach
+    crate::c12::nonce_generator_cases(s, tier, rng);
 }
